@@ -110,3 +110,18 @@ Theorem C12_admission_test_regenerated :
     else SrcFragments.ContBeltStore_gate (TieBelt.glens_of b noacc one).
 Proof. exact TieBelt.gate_regenerated. Qed.
 Print Assumptions C12_admission_test_regenerated.
+
+(* tie B, constructor wiring (theories/Edges/TieWiring.v): the slot delay configured on a slotted conveyor is the delay its
+   store's entrance test and move process use (three links); a continuous conveyor's speed is its belt store's speed *)
+From FV Require TieWiring.
+Theorem C12_configured_slot_delay_reaches_the_gate :
+  (SrcFragments.SlotConveyor_store_delay_wiring = SrcFragments.A_delay /\ SrcFragments.SlotConveyorStore_base_delay_wiring = SrcFragments.A_delay /\
+  SrcFragments.SlotBeltStore_keeps_delay = SrcFragments.A_delay /\ SrcFragments.SlotConveyorStore_base_mode_wiring = SrcFragments.A_const_FIFO).
+Proof. exact TieWiring.slot_delay_reaches_the_gate. Qed.
+Print Assumptions C12_configured_slot_delay_reaches_the_gate.
+
+Theorem C12_configured_speed_reaches_the_belt :
+  (SrcFragments.ContConveyor_store_speed_wiring = SrcFragments.A_speed /\ SrcFragments.ContBeltStore_keeps_speed = SrcFragments.A_speed /\
+  SrcFragments.ContConveyor_store_accumulation_mode_indicator_wiring = SrcFragments.A_accumulating).
+Proof. exact TieWiring.speed_reaches_the_belt. Qed.
+Print Assumptions C12_configured_speed_reaches_the_belt.
